@@ -76,6 +76,8 @@ PROGRAMS = [
     "def f(cmd):\n    match cmd:\n        case 1:\n            a\n        case 2:\n            b\n    return cmd",
     # 56: arguments / bases and keywords over several lines with falling columns (source order is (line, column) order)
     "r = call(a, key=1,\n    *rest)\nclass C(B, m=M,\n  *bases): pass",
+    # 57: grouping parentheses that alone keep a node apart from the keywords / names around it; targets of del inside brackets
+    "with(a)as b: pass\nx = [i for i in(b)for j in k if(c)]\ny = a if((q))else c\nz = not(p)\ndel (d, e), [g]",
 ]
 
 for _p in PROGRAMS:
